@@ -34,7 +34,7 @@ REAL = ["bec2format.bf3file / bec2file (writer and reader)", "bec2format.bytes_r
         "register_crypto_plugin (AES adapter, ECC proxies)", "pyaes", "ecdsa (ECC blocks)"]
 STUBS = ["medium: SimFS (crash points, torn writes)", "RNG: SimRng behind register_random_bytes / "
          "os.urandom shims", "RefDir (locates fields; never judges)"]
-PROBES = ["runs-with-assertions-disabled", "key-buffer-changed-in-place", "payload-64k-or-more", "concurrent-readers", "cut-drops-only-zero-bytes", "cut-inside-hex-pair", "cut-splits-crlf", "cut-inside-dir-size",
+PROBES = ["damage-in-entry-beyond-255", "runs-with-assertions-disabled", "key-buffer-changed-in-place", "payload-64k-or-more", "concurrent-readers", "cut-drops-only-zero-bytes", "cut-inside-hex-pair", "cut-splits-crlf", "cut-inside-dir-size",
           "cut-in-comment-header", "cut-after-signature", "damage-accepted-equal",
           "crash-simulated-equals-prefix", "rep-in-length-field", "bec2-header-damage",
           "keybit-on-empty-file"]
@@ -73,6 +73,12 @@ def gen(st, tier):
             spec["faults"].append(["rep", ["payload", off], f.choice(CLASSES)])
         return spec
     spec = files.file_spec(w, max_len=200 if tier == "quick" else 120, p_enc=0.25, allow_many=(tier == "quick"))
+    if w.random() < 0.03 and spec["obj"]["components"]:
+        # an empty component before other ones.  (The pinned writer emits it but the pinned reader rejects such a
+        # file, C01 excludes them: the run then ends as "baseline-unreadable"; a tree that can read them is judged.)
+        spec["obj"]["components"].insert(w.randrange(len(spec["obj"]["components"])),
+                                         {"desc": [], "blob": {"len": 0, "fill": "zero", "tail0": 0, "s": 0},
+                                          "alen": None, "enc": False})
     if tier == "thorough":
         # complete enumeration per file: keep the file small enough for it (comments are not part of the binary)
         spec["obj"]["comments"] = [c for c in spec["obj"]["comments"] if len(c[1]) < 200]
@@ -105,6 +111,9 @@ def gen(st, tier):
         faults.append(["rep", ["field", f.randrange(10000)], f.choice(CLASSES)])
     for _ in range(8):
         faults.append(["rep", ["frac", f.random()], f.choice(CLASSES)])
+    # fields of the last directory entries (entry numbers beyond 255 in packages with many components)
+    for _ in range(14 if len(spec["obj"]["components"]) > 200 else 2):
+        faults.append(["rep", ["field-lastdir", f.randrange(10000)], f.choice(CLASSES)])
     for j in range(3):
         faults.append(["rep", ["end", j], f.choice(CLASSES)])
     for _ in range(3):
@@ -247,8 +256,6 @@ def run(case):
             return out
         orig = w.durable
         crlf = b"\r\n" in orig
-        head, binary = files.binary_of(orig)
-        regions, info = refdir.walk(binary)
         decs = list(w.decryptors.values())
         # the fault-free read must work, otherwise there is nothing to judge here (C01/C02)
         fs.restart()
@@ -261,7 +268,11 @@ def run(case):
             out.ev("baseline-unreadable", type(e).__name__)
             out.probes["baseline-unreadable"] += 1
             return out
+        head, binary = files.binary_of(orig)
+        regions, info = refdir.walk(binary)
         out.ev("file", kind, len(orig), len(binary), len(info["entries"]))
+        if any(e["total"] == 0 for e in info["entries"]):
+            out.probes["readable-file-with-empty-component"] += 1
         if case.get("bigfile"):
             out.probes["payload-64k-or-more"] += 1
         faults = case["faults"]
@@ -320,6 +331,17 @@ def run(case):
                     p = min(p, len(binary) - 1)
                 elif ft[1][0] == "field":
                     p = fields[ft[1][1] % len(fields)] if fields else 0
+                elif ft[1][0] == "field-lastdir":
+                    ent = [(s_, e_) for s_, e_, nm in regions
+                           if nm.startswith("entry-") and nm not in ("entry-payload-mac", "entry-mac")]
+                    cand = [q for s_, e_ in ent[-72:] for q in range(s_, e_)]
+                    if ft[1][1] % 2 == 0:
+                        # fields that nothing but the entry's own MAC protects: declared length, tag ids and values
+                        soft = [(s_, e_) for s_, e_, nm in regions if nm in ("entry-declared-len", "entry-tags")]
+                        cand = [q for s_, e_ in soft[-20:] for q in range(s_, e_)] or cand
+                    p = cand[ft[1][1] % len(cand)] if cand else 0
+                    if len(ent) > 255 * 6:
+                        out.probes["damage-in-entry-beyond-255"] += 1
                 else:
                     p = _resolve(ft[1], len(binary))
                 nb = _apply_class(binary[p], ft[2])
